@@ -35,6 +35,9 @@ pub enum Step {
   Block(BlockSpec),
   /// remove the last n blocks from the node's best chain
   Pop { n: usize },
+  /// append n plain blocks (one taproot coinbase output of the full subsidy each) with ids
+  /// "<prefix><i>"; only the last `keep` coinbase outputs are reported to the specification
+  Skip { prefix: String, n: usize, keep: usize },
   /// Index::update()
   Update,
   /// drop and reopen the index
